@@ -1,5 +1,5 @@
 reg("C07", "Db stays a consistent table under edit histories",
-    parts=[dict(harness="c07_dbedit", cases=dict(quick=1500, thorough=40000), timeout_case=20)],
+    parts=[dict(harness="c07_dbedit", cases=dict(quick=1500, thorough=30000), timeout_case=20)],
     rule="case = initial construction (Db::createFromSamples | Db::create() + first addColumns | empty Db::create() | "
          "DbGrid::create, with duplicate names and repeated locator names) followed by a random edit history (5-60 steps, "
          "thorough up to 400) drawn step by step for the state reached, over the public editing alphabet of Db/DbGrid "
@@ -13,8 +13,8 @@ reg("C07", "Db stays a consistent table under edit histories",
     require=dict(distinct=40,
                  oracles=dict(quick={"inv.uid-col": 12000, "inv.names-unique": 12000, "inv.locator-two-roles": 12000,
                                      "t.cells": 12000, "t.roles": 12000, "t.columns": 12000, "t.return": 3000},
-                              thorough={"inv.uid-col": 800000, "inv.names-unique": 800000, "inv.locator-two-roles": 800000,
-                                        "t.cells": 800000, "t.roles": 800000, "t.columns": 800000, "t.return": 200000})),
+                              thorough={"inv.uid-col": 500000, "inv.names-unique": 500000, "inv.locator-two-roles": 500000,
+                                        "t.cells": 500000, "t.roles": 500000, "t.columns": 500000, "t.return": 120000})),
     assumptions=["a column carrying the SEL role only receives 0/1 values from the harness, and SEL is only given to 0/1 columns "
                  "(Db::addSelection documents a selection as 0/1; the meaning of other values differs between getters)",
                  "a requested locator rank is 'next' (-1 or the current count) or an existing rank; 'unique' role types "
